@@ -151,6 +151,10 @@ func (c *Ctx) recordBFS(id string, v Verdict, rerun func() Verdict) {
 		}
 		return
 	}
+	if strings.Contains(v.Detail, "HARNESS") {
+		c.Broken("harness problem in history %s: %s", id, v.Detail)
+		return
+	}
 	for i := 0; i < 5; i++ {
 		w, hung := withWatchdog(rerun, c.CaseTimeout)
 		if hung || w.OK != v.OK || w.Detail != v.Detail {
